@@ -95,3 +95,11 @@ pub fn arm(property: &str) {
         }
     }
 }
+
+/// No core file for a process that is expected to abort (child processes of checks whose correct outcome is an abort).
+pub fn no_core_dumps() {
+    let lim = libc::rlimit { rlim_cur: 0, rlim_max: 0 };
+    unsafe {
+        libc::setrlimit(libc::RLIMIT_CORE, &lim);
+    }
+}
